@@ -50,6 +50,15 @@ CHECKS.update({
                 text="NodeConfig: phase = longest expected-delay path over un-skipped connections, loop iff un-skipped cycle upstream, setters and the info round trip; every TLC behaviour is replayed on real nodes and phase / delays / distribution identity / input keys (shadow names) are compared through attributes and through node.info; simulated episodes after set_delay must follow the law with the new distributions."),
 })
 
+CHECKS.update({
+    "C12": dict(level="model_checking", ref="6 C12",
+                technique="TLA+ generator law (RexGen) judging every episode of real generate_graphs / augment_graphs results (trace validation); acyclicity via to_networkx_graph(validate=True)",
+                text="Each generated or augmented episode is a trace checked clause by clause against the generator law defined in TLA+ (phase, spacing, sampled durations, horizon, FIFO receive times from the support, first-step-at-or-after-arrival assignment, augmentation keeps/ adds exactly)."),
+    "C14": dict(level="model_checking", ref="6 C14",
+                technique="TLA+ algebra of abstract graphs (GraphAlgebra: Strip/Index/Stack/Filter/ToNx laws) recomputing the result of every real call from its inputs",
+                text="Real records and graphs (ragged, shadow names) are pushed through to_graph / stack / index / filter / to_networkx; TLC recomputes each right-hand side from the inputs with the TLA+ definitions and compares."),
+})
+
 NA = {
     "C11": "numeric claim about one pure function (interpolation exactness, continuity, gradient); no state, schedule or history for a TLA+ model to decide (DESIGN 7)",
     "C15": "numeric/statistical claims about pure distribution functions (quantiles, CDF agreement, estimator normalisation) (DESIGN 7)",
